@@ -68,7 +68,16 @@ def spec_sound(score, first_relative_reference=0):
                     if n.type == 'd':
                         p = n.val + 12 * n.octave
                     elif n.is_relative:
-                        p = int(ch.to_pitch(n, last_pitch=last if last is not None else first_relative_reference))
+                        ref = last if last is not None else first_relative_reference
+                        p = int(ch.to_pitch(n, last_pitch=ref))      # raises outside the +-10 octave window (C09)
+                        try:
+                            # the k-th pitch of the note's system above / below the reference, counted directly
+                            # (C09's independent oracle) rather than taken from the function under test
+                            # (seed C03-7 misplaced the sign of a downward note's octave in that function)
+                            from props.C09 import expected_rel
+                            p = int(expected_rel(ch, n, ref))
+                        except Exception:
+                            pass
                     else:
                         p = documented_pitch(ch, n)
                     last = p
